@@ -29,7 +29,9 @@ fn literal(v: &Value) -> Option<String> {
 
 /// `variant` spells the same item definitions differently: bit 0 - written top-down (every reference points forward in
 /// the document), bit 1 - the allowed values carry the expressionLanguage attribute with the FEEL URI of DMN 1.2,
-/// bit 2 - the item definitions are named like built-in types written with other capitals (Date, String, Number, ..).
+/// bit 2 - the item definitions are named like built-in types written with other capitals (Date, String, Number, ..),
+/// bit 3 - the decision logic itself carries typeRef="Any" (the declared type of a result is the output VARIABLE's),
+/// bit 4 - every number among the values is written with two fraction digits (handled in run_variant).
 fn model_xml(t: &J, values: &[Value], direct: bool, variant: u64) -> (String, Vec<bool>) {
   let (mut defs, top) = crate::xml::item_definitions_xml_named(t, variant & 1 == 1, variant & 4 == 4);
   if variant & 2 == 2 {
@@ -53,6 +55,9 @@ fn model_xml(t: &J, values: &[Value], direct: bool, variant: u64) -> (String, Ve
       has.push(false);
     }
   }
+  if variant & 8 == 8 {
+    s = s.replace("<literalExpression><text>", "<literalExpression typeRef=\"Any\"><text>");
+  }
   s.push_str("</definitions>");
   (s, has)
 }
@@ -64,7 +69,25 @@ pub fn run_case(case: &J, direct: bool) -> J {
 pub fn run_variant(case: &J, direct: bool, variant: u64) -> J {
   let t = &case["ty"];
   let vals_j: Vec<J> = case["vals"].as_array().cloned().unwrap_or_default();
-  let values: Vec<Value> = vals_j.iter().map(dec_value).collect();
+  let mut values: Vec<Value> = vals_j.iter().map(dec_value).collect();
+  if variant & 16 == 16 {
+    // the same values with every number written with two fraction digits (1 as 1.00): equal numbers, another scale
+    fn scaled(v: &Value) -> Value {
+      match v {
+        Value::Number(n) => Value::Number(dmntk_feel::FeelNumber::from_string(&format!("{}{}", n, if n.to_string().contains('.') { "00" } else { ".00" }))),
+        Value::List(items) => Value::List(dmntk_feel::values::Values::new(items.as_vec().iter().map(scaled).collect())),
+        Value::Context(c) => {
+          let mut o = FeelContext::default();
+          for (k, x) in c.iter() {
+            o.set_entry(k, scaled(x));
+          }
+          Value::Context(o)
+        }
+        other => other.clone(),
+      }
+    }
+    values = values.iter().map(scaled).collect();
+  }
   let (xml, has) = model_xml(t, &values, direct, variant);
   crate::util::QUIET.with(|q| q.set(true));
   let r = std::panic::catch_unwind(std::panic::AssertUnwindSafe(|| {
@@ -127,6 +150,10 @@ pub fn check(mut ctx: Ctx, replay: Option<J>) -> ! {
       if c["ty"]["d"] != "simple" || c["ty"]["av"] != "none" {
         recs.push(run_variant(c, false, 1 + (k as u64 % 3)));
         recs.push(run_variant(c, false, 4 + (k as u64 % 2)));
+      }
+      recs.push(run_variant(c, false, if k % 2 == 0 { 8 } else { 16 }));
+      if k % 3 == 0 {
+        recs.push(run_variant(c, false, 24));
       }
       if c["ty"]["d"] == "simple" && c["ty"]["av"] == "none" {
         recs.push(run_case(c, true)); // the built-in type name used directly as typeRef
